@@ -422,10 +422,14 @@ func routeDirs(n int, idsAndTails [][]byte) string {
 	}
 	entries, _ := os.ReadDir(root)
 	var dirs [][]byte
+	// the permission bits a process umask leaves on the queue directories (022, 027, 077, 026): whether a queue is found
+	// again at the next start must not depend on them
+	dirMode := []os.FileMode{0o755, 0o750, 0o700, 0o751}[routeSeq%4]
 	for _, e := range entries {
 		if e.IsDir() {
 			dirs = append(dirs, []byte(e.Name()))
 			os.WriteFile(filepath.Join(root, e.Name(), "0000.ff"), []byte("x"), 0o644)
+			os.Chmod(filepath.Join(root, e.Name()), dirMode)
 		}
 	}
 	sort.Slice(dirs, func(a, b int) bool { return bytes.Compare(dirs[a], dirs[b]) < 0 })
@@ -553,8 +557,15 @@ func (r *routeComp) Oracle(c Case, impl []string) string {
 				continue
 			}
 			want := map[string]bool{}
+			valid := true
 			for j := 0; j+1 < len(o.Bytes); j += 2 {
+				if len(o.Bytes[j]) == 0 {
+					valid = false // not a pipeline id (the id of a lone empty key is `\e`): only a shrunk case can contain it
+				}
 				want[hx(o.Bytes[j])] = true
+			}
+			if !valid {
+				continue
 			}
 			for _, part := range strings.Fields(got) {
 				kv := strings.SplitN(part, "=", 2)
